@@ -246,9 +246,12 @@ func (x *Exec) unop(f *frame, v *ssa.UnOp, st *State) *Val {
 		if v.CommaOk {
 			r := &Val{K: KTuple, T: v.Type()}
 			r.E = []*Val{x.freshVal(et, "recv"), x.freshVal(types.Typ[types.Bool], "recvok")}
+			x.logChanOp(st, "recv", r.E[1].S, a, r.E[0])
 			return r
 		}
-		return x.freshVal(et, "recv")
+		rv := x.freshVal(et, "recv")
+		x.logChanOp(st, "recv", "true", a, rv)
+		return rv
 	}
 	panic(unsupported("unary %s", v.Op))
 }
